@@ -153,9 +153,24 @@ def pick_pressures(tab, frac_i, ratio):
     return float(p_i), float(min(p_f, p_i))
 
 
+def typed_nx(desc):
+    """The node count as the caller might hold it: a Python int, or a numpy integer of any width that
+    can represent it (np.int16(200), np.int8(30), np.uint8(16), np.int64(...))."""
+    nx = int(desc["nx"])
+    kind = desc.get("nx_type", "int")
+    if kind == "int":
+        return nx
+    for t in (kind, "int16", "int32"):
+        if np.iinfo(np.dtype(t)).max >= nx:
+            return np.dtype(t).type(nx)
+    return nx
+
+
 def build(desc):
     """Return (reservoir, time, schedule, fluid, table)."""
     from bluebonnet.flow import FlowProperties, IdealReservoir, SinglePhaseReservoir
+
+    desc = dict(desc, nx=typed_nx(desc))
 
     time = make_time(desc["grid"])
     if desc["grid"].get("integer"):
@@ -258,7 +273,7 @@ def random_sim_desc(rng, tier, single_share=0.75, consistent_only=False, schedul
         nt = max(nt, 3)
     g = {"family": fam, "nt": nt, "t_end": float(10.0 ** rng.uniform(-3, 1.5)), "seed": int(rng.integers(0, 2**31))}
     ratio = float(rng.choice([0.01, 0.1, 0.3, 0.5, 0.7, 0.9, 0.99, 0.999, 1.0, float(rng.uniform(0.01, 1))]))
-    d = {"cls": cls, "nx": nx, "grid": g}
+    d = {"cls": cls, "nx": nx, "grid": g, "nx_type": str(rng.choice(["int", "int", "int", "int8", "uint8", "int16", "int32", "int64"]))}
     if cls == "ideal":
         d["p_i"] = float(rng.uniform(1000, 12000))
         d["p_f"] = d["p_i"] * ratio
